@@ -61,7 +61,7 @@ def main():
     R = mcheck.MRun(vc.REPO, sc, 'codegen', max_depth=80, max_paths=60000)
     R.limit_is_finding = True
     cands = []
-    fs = [(2, 2)] if tier == 'quick' else [(2, 2), (3, 2), (2, 3)]
+    fs = [(2, 2)] if tier == 'quick' else [(2, 2), (2, 3)]
     ns = [(2, 2), (3, 2)] if tier == 'quick' else [(2, 2), (3, 2), (2, 3)]      # (3,3) / (4,2) exceed the path budget (measured in C12)
     for F, S in fs:
         cands += K.k_typename_search(R, F, S)
@@ -73,7 +73,7 @@ def main():
     # type-condition validation on a schema whose union lists itself as a member
     cands += [c for c in K.k_type_conditions(R, self_union=True) if c['prop'] == 'C17']
     R.vm.loop_watch = ['contains_type_without_indirection']
-    for N, Kf in ns[:2] if tier == 'quick' else ns[:3]:
+    for N, Kf in ns[:2]:
         cands += [c for c in K.k_input_recursion(R, N, Kf, 1) if c['prop'] == 'C17']
     R.vm.loop_watch = []
     cands = [c for c in cands if c['prop'] == 'C17']
